@@ -62,6 +62,7 @@ type scenario struct {
 	Threads []threadSpec
 	Bound   int       // preemption bound, -1 = complete space
 	Glue    bool      // operations on request-private keys take no scheduling point of their own (see vstore.gluePrivate)
+	Mode    string    // back-end answer semantics ("" = go-cache, memcached, redis)
 	Faults  []faultAt // environment answers: these store operations are answered with a generic store error
 	Big     bool      // explored by all shards together (level-1 subtrees dealt round-robin)
 }
@@ -218,6 +219,25 @@ type verdict struct {
 	What      string
 }
 
+// sigKind is the secret kind as it appears in a signature. The back-end class is part of it where the class answers
+// differently in the operation the kind's burn consists of: memcached reports the delete of a missing key, go-cache
+// and redis do not. A double redemption of a take-once secret under memcached semantics therefore never matches the
+// known findings, which are about back-ends whose delete does not report a missing key (go-cache, redis). The
+// remember-as-used kinds burn by Set, which all three back-ends answer alike: same mechanism, same signature.
+func sigKind(k *kindSpec, mode string) string {
+	if mode == modeMemcached && k.Burn == "del" {
+		return k.Sig + "|backend:memcached"
+	}
+	return k.Sig
+}
+
+func modeTag(mode string) string {
+	if mode == "" {
+		return ""
+	}
+	return "[" + mode + "]"
+}
+
 // judge evaluates one finished execution against the statement.
 func (h *harness) judge(sc *scenario, x *sched.Exec, st *vstore, out []response, states stateSet) (verdict, error) {
 	zero := st.zeroOps
@@ -329,14 +349,14 @@ func (h *harness) judge(sc *scenario, x *sched.Exec, st *vstore, out []response,
 			shape += "|burn-not-next-to-read"
 		}
 	}
-	v.Sig = "C05|" + sc.K.Sig + "|concurrent|" + shape
+	v.Sig = "C05|" + sigKind(sc.K, sc.Mode) + "|concurrent|" + shape
 	v.What = fmt.Sprintf("%s: %d of %d concurrent requests presenting the same secret succeeded (%s); schedule %v", sc.Name,
 		len(v.Successes), len(sc.Threads), shape, x.Choices())
 	// A store error answered to one of the operations: the plain window (every winner read before the first burn, the
 	// burn directly follows the read) is the mechanism of the known findings whether or not an error was answered
 	// somewhere; any other shape in an execution with an answered error is attributed to the error.
 	if desc := faultDesc(sc.K, ops); desc != "" && shape != "reads-before-first-"+sc.K.Burn {
-		v.Sig = "C05|" + sc.K.Sig + "|store-fault|" + desc + "|concurrent|" + shape
+		v.Sig = "C05|" + sigKind(sc.K, sc.Mode) + "|store-fault|" + desc + "|concurrent|" + shape
 		v.What = fmt.Sprintf("%s: %d of %d concurrent requests presenting the same secret succeeded although the store answered %s (%s); schedule %v",
 			sc.Name, len(v.Successes), len(sc.Threads), desc, shape, x.Choices())
 	}
@@ -365,6 +385,8 @@ func faultDesc(k *kindSpec, ops []opRec) string {
 
 func (h *harness) runSchedule(sc *scenario, o sched.Options, each func(x *sched.Exec, st *vstore, out []response)) sched.Result {
 	w := h.w
+	w.mode = sc.Mode
+	defer func() { w.mode = modeGoCache }()
 	return sched.Explore(o, func(x *sched.Exec) func(*sched.Exec) {
 		st := w.fresh(sc.K.Alias)
 		sc.K.Seed()
@@ -417,12 +439,18 @@ func (h *harness) explore(sc *scenario, replay []int) {
 			h.t.Fatalf("harness: %s: %v", sc.Name, err)
 		}
 		steps += int64(len(x.Trace))
-		oc := fmt.Sprintf("%s:%d-of-%d-succeed", sc.K.Kind, len(v.Successes), len(sc.Threads))
+		oc := fmt.Sprintf("%s%s:%d-of-%d-succeed", sc.K.Kind, modeTag(sc.Mode), len(v.Successes), len(sc.Threads))
+		if len(sc.Faults) == 0 {
+			r.AddExtra("schedules "+sc.Name, 1)
+			if len(v.Successes) >= 2 {
+				r.AddExtra("schedules with a double success "+sc.Name, 1)
+			}
+		}
 		if len(sc.Faults) == 0 {
 			r.Eval(sc.Name + fmt.Sprint(x.Choices()))
 		} else if desc := faultDesc(sc.K, st.managedOps()); desc != "" {
 			r.Eval(sc.Name + fmt.Sprint(x.Choices()))
-			oc = fmt.Sprintf("%s:store-fault:%d-of-%d-succeed", sc.K.Kind, len(v.Successes), len(sc.Threads))
+			oc = fmt.Sprintf("%s%s:store-fault:%d-of-%d-succeed", sc.K.Kind, modeTag(sc.Mode), len(v.Successes), len(sc.Threads))
 		} else {
 			r.Eval("") // the operation to be answered with an error was never reached on this schedule: same as without it
 		}
@@ -525,10 +553,10 @@ func (h *harness) sequentialReplay(k *kindSpec, name string) {
 		again := w.do(k.Good)
 		r.Eval(name + "#" + strconv.Itoa(i))
 		r.Transitions(1)
-		r.Outcome(fmt.Sprintf("%s:sequential-replay-%v", k.Kind, k.OK(again)))
+		r.Outcome(fmt.Sprintf("%s%s:sequential-replay-%v", k.Kind, modeTag(h.w.mode), k.OK(again)))
 		if k.OK(again) {
 			n++
-			r.Violation("C05|"+k.Sig+"|sequential|replay-accepted|"+state,
+			r.Violation("C05|"+sigKind(k, h.w.mode)+"|sequential|replay-accepted|"+state,
 				fmt.Sprintf("%s: presentation %d of the same secret, made after the previous one had returned, succeeded again (%s)", name, i+2, state),
 				replayCase{Item: name, Status: []int{first.Status, again.Status}})
 		}
@@ -546,14 +574,14 @@ func (h *harness) failedAttempt(k *kindSpec, way string, name string) {
 	good := w.do(k.Good)
 	r.Eval(name)
 	r.Transitions(2)
-	r.Outcome(fmt.Sprintf("code:failed-attempt:%s:first=%v,then=%v", way, k.OK(bad), k.OK(good)))
+	r.Outcome(fmt.Sprintf("code%s:failed-attempt:%s:first=%v,then=%v", modeTag(h.w.mode), way, k.OK(bad), k.OK(good)))
 	switch {
 	case !k.OK(bad) && k.OK(good):
-		r.Violation("C05|code|failed-attempt|"+way+"|code-still-redeemable",
+		r.Violation("C05|"+sigKind(k, h.w.mode)+"|failed-attempt|"+way+"|code-still-redeemable",
 			fmt.Sprintf("%s: redemption attempt failed (%d) and the code was redeemed afterwards (%s)", name, bad.Status, state),
 			replayCase{Item: name, Status: []int{bad.Status, good.Status}})
 	case k.OK(bad) && k.OK(good):
-		r.Violation("C05|code|sequential|replay-accepted|"+state,
+		r.Violation("C05|"+sigKind(k, h.w.mode)+"|sequential|replay-accepted|"+state,
 			fmt.Sprintf("%s: both the (supposedly failing) attempt and the following correct one succeeded", name),
 			replayCase{Item: name, Status: []int{bad.Status, good.Status}})
 	case k.OK(bad):
@@ -714,7 +742,7 @@ func (h *harness) judgeSeqFault(k *kindSpec, name string, steps []seqStep, fault
 	}
 	r.Eval(name + "|" + faultName(faults))
 	r.Transitions(int64(len(ops)))
-	r.Outcome(fmt.Sprintf("%s:store-fault:sequential:%d-of-%d-succeed", k.Kind, len(okAt), len(out)))
+	r.Outcome(fmt.Sprintf("%s%s:store-fault:sequential:%d-of-%d-succeed", k.Kind, modeTag(h.w.mode), len(okAt), len(out)))
 	rc := replayCase{Item: name, Faults: faults, Status: status}
 	if len(okAt) >= 2 {
 		// believe it only when it reproduces
@@ -724,7 +752,7 @@ func (h *harness) judgeSeqFault(k *kindSpec, name string, steps []seqStep, fault
 				h.t.Fatalf("harness: %s: run with %s is not reproducible", name, faultName(faults))
 			}
 		}
-		r.Violation("C05|"+k.Sig+"|store-fault|"+desc+"|replay-accepted",
+		r.Violation("C05|"+sigKind(k, h.w.mode)+"|store-fault|"+desc+"|replay-accepted",
 			fmt.Sprintf("%s: requests %v of %d sequential requests presenting the same secret all succeeded when the store answered %s (statuses %v)",
 				name, okAt, len(out), desc, status), rc)
 		return
@@ -750,7 +778,7 @@ func (h *harness) judgeSeqFault(k *kindSpec, name string, steps []seqStep, fault
 			map[string]any{"item": name, "faults": faults, "status": status})
 		return
 	}
-	r.Violation("C05|code|store-fault|"+desc+"|failed-attempt|code-still-redeemable",
+	r.Violation("C05|"+sigKind(k, h.w.mode)+"|store-fault|"+desc+"|failed-attempt|code-still-redeemable",
 		fmt.Sprintf("%s: a redemption attempt failed (statuses %v) while the store answered %s - no Delete of the code was refused - and the code was redeemed afterwards",
 			name, status, desc), rc)
 }
@@ -822,7 +850,7 @@ func (h *harness) timeGrid(tc timeCase) {
 				accepted++
 			}
 			if k.OK(first) && k.OK(again) {
-				sig := "C05|" + k.Sig + "|sequential|replay-accepted|" + state
+				sig := "C05|" + sigKind(k, h.w.mode) + "|sequential|replay-accepted|" + state
 				if tc.Class != "" {
 					sig += "|" + tc.Class
 				}
@@ -969,44 +997,86 @@ func TestVerifC05(t *testing.T) {
 		"its choice vector); sequential replays at once and at every boundary instant (+-1 ms) of the secret's time-to-live and of the " +
 		"presentation's / proof's acceptance window under a frozen virtual clock; failed redemption attempts followed by a correct one; " +
 		"environment answers: every single store operation (two in the thorough tier) of the sequential scenarios and of the complete " +
-		"2-request schedule spaces is answered with a generic store error, with and - for writes - without the operation taking effect")
-	r.Assume("the session store's back-end is the in-memory one (go-cache); Redis / memcached atomicity is not explored")
+		"2-request schedule spaces is answered with a generic store error, with and - for writes - without the operation taking effect; " +
+		"back-end answer semantics: the schedule spaces, sequential clauses and answered-error runs are repeated with the bottom store " +
+		"answering like memcached (Get / Delete of a missing key -> memcache.ErrCacheMiss) and like redis (Get -> store.NotFound(redis.Nil), Delete -> nil)")
+	r.Assume("the bottom store is the in-memory go-cache store; the memcached and redis back-ends are represented by their ANSWER SEMANTICS " +
+		"(what Get / Delete of a missing key answer, as gocache's memcache and redis stores v4.2.2 surface it) - their servers, key " +
+		"restrictions, value types and second-granular expiry are not")
 	r.Assume("between two store operations a handler touches no state shared with another request (checked by the free-running -race part when run)")
 	r.Assume("jwx's built-in clock (dpop.Parse) is the wall clock: it only bounds iat from below and every proof is minted at t0 <= wall clock")
 
-	var items []item
-	allScenarios := append(h.scenarios(ks), h.faultScenarios(ks)...)
 	depth := 1
 	if r.Thorough() {
 		depth = 2
 	}
 	r.Bound("answered_store_errors_per_run", depth)
-	for _, kn := range kindOrder {
-		k, name := ks[kn], "fault/seq/"+kn+"/replay"
-		steps := []seqStep{{"first", k.Good}, {"replay", k.Good}, {"replay2", k.Good}}
-		items = append(items, item{name: name, weight: 40 * depth * depth * depth, run: func() { h.faultSequence(k, name, steps, depth) }})
-	}
-	for _, way := range failWays {
-		k, name := ks["code"], "fault/seq/code/failed:"+way
-		steps := []seqStep{{"bad", h.w.codeReq("CODE-A", way)}, {"good", k.Good}, {"good2", k.Good}}
-		items = append(items, item{name: name, weight: 40 * depth * depth * depth, run: func() { h.faultSequence(k, name, steps, depth) }})
-	}
-	for _, sc := range allScenarios {
-		sc := sc
-		items = append(items, item{name: sc.Name, big: sc.Big, weight: estimate(sc), run: func() { h.explore(sc, nil) }})
-	}
-	for _, kn := range kindOrder {
-		k, name := ks[kn], "seq/"+kn
-		items = append(items, item{name: name, run: func() { h.sequentialReplay(k, name) }})
-	}
-	for _, way := range failWays {
-		way, name := way, "seq/code/failed:"+way
-		items = append(items, item{name: name, run: func() { h.failedAttempt(ks["code"], way, name) }})
-	}
-	items = append(items, item{name: "seq/code/refused-before-handler", run: func() { h.refusedBeforeHandler(ks["code"]) }})
-	for _, tc := range h.timeCases(ks) {
-		tc := tc
-		items = append(items, item{name: tc.Name, weight: 100 * len(tc.First), run: func() { h.timeGrid(tc) }})
+	var items []item
+	var allScenarios []*scenario
+	takeOnce := func(kn string) bool { return ks[kn].Burn == "del" }
+	for _, mode := range append([]string{modeGoCache}, backendModes...) {
+		mode := mode
+		prefix := ""
+		if mode != modeGoCache {
+			prefix = "be:" + mode + "/"
+		}
+		// run an item's body with every store it creates answering like `mode`
+		in := func(f func()) func() {
+			return func() {
+				h.w.mode = mode
+				defer func() { h.w.mode = modeGoCache }()
+				f()
+			}
+		}
+		h.w.mode = mode
+		scs := append(h.scenarios(ks), h.faultScenarios(ks)...)
+		h.w.mode = modeGoCache
+		for _, sc := range scs {
+			sc := sc
+			if mode != modeGoCache {
+				// Other answer semantics: the take-once kinds (GetAndDelete passes the Delete's answer on) with 2 and 3
+				// requests, the failed-attempt races and the answered-error spaces; the remember-as-used kinds (Get then
+				// Put, which all back-ends answer alike apart from the form of the miss) with 2 requests only.
+				base := strings.TrimPrefix(sc.Name, sc.K.Kind+"/")
+				keep := base == "2same"
+				if takeOnce(sc.K.Kind) {
+					keep = keep || base == "3same" || strings.HasPrefix(sc.Name, "fault/") ||
+						strings.HasSuffix(base, "+1good") || (r.Thorough() && (base == "2same+other" || strings.HasSuffix(base, "+2good")))
+				}
+				if !keep {
+					continue
+				}
+				sc.Name, sc.Mode = prefix+sc.Name, mode
+			}
+			allScenarios = append(allScenarios, sc)
+			items = append(items, item{name: sc.Name, big: sc.Big, weight: estimate(sc), run: func() { h.explore(sc, nil) }})
+		}
+		for _, kn := range kindOrder {
+			k, name := ks[kn], prefix+"fault/seq/"+kn+"/replay"
+			steps := []seqStep{{"first", k.Good}, {"replay", k.Good}, {"replay2", k.Good}}
+			items = append(items, item{name: name, weight: 40 * depth * depth * depth, run: in(func() { h.faultSequence(k, name, steps, depth) })})
+		}
+		for _, way := range failWays {
+			k, name := ks["code"], prefix+"fault/seq/code/failed:"+way
+			steps := []seqStep{{"bad", h.w.codeReq("CODE-A", way)}, {"good", k.Good}, {"good2", k.Good}}
+			items = append(items, item{name: name, weight: 40 * depth * depth * depth, run: in(func() { h.faultSequence(k, name, steps, depth) })})
+		}
+		for _, kn := range kindOrder {
+			k, name := ks[kn], prefix+"seq/"+kn
+			items = append(items, item{name: name, run: in(func() { h.sequentialReplay(k, name) })})
+		}
+		for _, way := range failWays {
+			way, name := way, prefix+"seq/code/failed:"+way
+			items = append(items, item{name: name, run: in(func() { h.failedAttempt(ks["code"], way, name) })})
+		}
+		if mode != modeGoCache {
+			continue // expiry is the wrapper's own in every mode: the boundary-instant replays are run once
+		}
+		items = append(items, item{name: "seq/code/refused-before-handler", run: func() { h.refusedBeforeHandler(ks["code"]) }})
+		for _, tc := range h.timeCases(ks) {
+			tc := tc
+			items = append(items, item{name: tc.Name, weight: 100 * len(tc.First), run: func() { h.timeGrid(tc) }})
+		}
 	}
 
 	var rc replayCase
@@ -1029,16 +1099,20 @@ func TestVerifC05(t *testing.T) {
 	}
 
 	// vacuity guards: every honest request succeeds when it is alone, on a fresh store
-	for _, kn := range kindOrder {
-		k := ks[kn]
-		for _, rq := range []reqSpec{k.Good, k.GoodB} {
-			h.w.fresh(k.Alias)
-			k.Seed()
-			if res := h.w.do(rq); !k.OK(res) {
-				t.Fatalf("harness: %s: honest single request refused: %d %s", kn, res.Status, clip(res.Body))
+	for _, mode := range append([]string{modeGoCache}, backendModes...) {
+		h.w.mode = mode
+		for _, kn := range kindOrder {
+			k := ks[kn]
+			for _, rq := range []reqSpec{k.Good, k.GoodB} {
+				h.w.fresh(k.Alias)
+				k.Seed()
+				if res := h.w.do(rq); !k.OK(res) {
+					t.Fatalf("harness: %s%s: honest single request refused: %d %s", kn, modeTag(mode), res.Status, clip(res.Body))
+				}
 			}
 		}
 	}
+	h.w.mode = modeGoCache
 
 	shard, nsh := r.Shard()
 	mine, rotation := assign(items, nsh)
